@@ -246,12 +246,19 @@ parser! {
 
         // directive line
         pub rule directive_line() -> Document
-            = space() l:label()? space() d:directive() space() os:directive_ops() space() comment()? { Document::DirectiveLine(Box::new(l), d, os) }
+            = space() l:label()? space() d:directive() space() os:directive_ops() space() comment()? ![_] { Document::DirectiveLine(Box::new(l), d, os) }
+
+        // a pragma whose text is not a list of operands (`#pragma AVRPART CORE NEW_INSTRUCTIONS lpm rd,z+`): kept as text
+        rule pragma_line() -> Document
+            = space() ("." / "#") "pragma" ne_space() t:$((!comment() [_])*) comment()? {
+                Document::DirectiveLine(Box::new(None), Directive::Pragma, DirectiveOps::OpList(vec![Operand::S(t.trim_end().to_string())]))
+            }
 
         // line
         pub rule line() -> Document
             = d_l:directive_line() { d_l }
             / i_l:instruction_line() { i_l }
+            / p_l:pragma_line() { p_l }
             / space() l:label() space() comment()? { l }
             / space() comment() { Document::EmptyLine }
             / space() new_line() { Document::EmptyLine }
